@@ -2,6 +2,7 @@ package main
 
 import (
 	"fmt"
+	"math/big"
 	"go/ast"
 	"go/constant"
 	"go/token"
@@ -82,6 +83,57 @@ func isNilIdent(e ast.Expr) bool {
 
 var bigConsts = map[string]string{"Big0": "0", "Big1": "1", "Big2": "2", "Big3": "3", "Big32": "32", "Big256": "256", "Big257": "257"}
 
+// pkgBigVar: a package-level *big.Int whose initialiser is a constant expression the translator can evaluate
+func (f *fnCtx) pkgBigVar(o types.Object) (string, bool) {
+	if o == nil || o.Pkg() == nil {
+		return "", false
+	}
+	p := f.g.pkgs[o.Pkg().Path()]
+	if p == nil {
+		return "", false
+	}
+	for _, file := range p.Syntax {
+		for _, d := range file.Decls {
+			gd, ok := d.(*ast.GenDecl)
+			if !ok || gd.Tok != token.VAR {
+				continue
+			}
+			for _, sp := range gd.Specs {
+				vs := sp.(*ast.ValueSpec)
+				for i, n := range vs.Names {
+					if p.TypesInfo.ObjectOf(n) != o || i >= len(vs.Values) {
+						continue
+					}
+					// new(big.Int).SetBytes([]byte{…constants…})
+					if c, ok := vs.Values[i].(*ast.CallExpr); ok {
+						if sel, ok := c.Fun.(*ast.SelectorExpr); ok && sel.Sel.Name == "SetBytes" && isNewBigInt(sel.X) && len(c.Args) == 1 {
+							if lit, ok := c.Args[0].(*ast.CompositeLit); ok {
+								v := new(big.Int)
+								for _, el := range lit.Elts {
+									tv, ok := p.TypesInfo.Types[el]
+									if !ok || tv.Value == nil {
+										return "", false
+									}
+									b, _ := constant.Uint64Val(constant.ToInt(tv.Value))
+									v.Lsh(v, 8)
+									v.Or(v, new(big.Int).SetUint64(b))
+								}
+								return "(" + v.String() + " : Int)", true
+							}
+						}
+						if exprFull(c.Fun) == "big.NewInt" && len(c.Args) == 1 {
+							if tv, ok := p.TypesInfo.Types[c.Args[0]]; ok && tv.Value != nil {
+								return "(" + constant.ToInt(tv.Value).ExactString() + " : Int)", true
+							}
+						}
+					}
+				}
+			}
+		}
+	}
+	return "", false
+}
+
 func (f *fnCtx) localVar(id *ast.Ident) (types.Object, bool) {
 	o := f.info.ObjectOf(id)
 	v, ok := o.(*types.Var)
@@ -139,8 +191,11 @@ func (f *fnCtx) expr(e ast.Expr) string {
 					return `(some "` + x.Sel.Name + `")`
 				}
 				if k.k == kBig {
-					if c, ok := bigConsts[x.Sel.Name]; ok {
+					if c, ok := bigConsts[x.Sel.Name]; ok && strings.HasSuffix(f.info.ObjectOf(x.Sel).Pkg().Path(), "go-ethereum/common") {
 						return "(" + c + " : Int)"
+					}
+					if v, ok := f.pkgBigVar(f.info.ObjectOf(x.Sel)); ok {
+						return v
 					}
 				}
 				trFail("package-level variable %s", f.src(e))
